@@ -133,7 +133,14 @@ func (r *WeightedRoundRobinSelection) Select(pool UpstreamPool, _ *http.Request,
 		return nil
 	}
 	if len(r.Weights) < 2 {
-		return pool[0]
+		// nothing to weigh against each other;
+		// use the first upstream that is available
+		for _, upstream := range pool {
+			if upstream.Available() {
+				return upstream
+			}
+		}
+		return nil
 	}
 	var index, totalWeight int
 	var weights []int
